@@ -53,9 +53,10 @@ def fam_member(seed, i, tier, s5free=False):
     extra = [x for x in IDS if x not in IDS[:nv]][:rng.choice([1, 2, 2])]
     return {"name": "member%s-%d-%d" % ("5" if s5free else "", seed, i), "family": "member", "voters": IDS[:nv], "extra": extra,
             "controlled": True, "auto": False, "heal": True, "heal_et": 60,
+            "snap_every": rng.choice([0, 0, 4]), "snap_pad": rng.choice([0, 40000]),
             "random": {"seed": sseed(seed, "member.r", i), "steps": rng.choice([200, 350, 500]), "members": True, "s5free": s5free,
-                       "reads": rng.random() < 0.4, "crashes": rng.random() < 0.4,
-                       "w": {"submit": 8, "fire": 6, "member": 6, "hb": 12, "read": 4, "crash": 1, "armcrash": 1, "restart": 6}}}
+                       "reads": rng.random() < 0.4, "crashes": rng.random() < 0.4, "snaps": rng.random() < 0.6,
+                       "w": {"submit": 8, "fire": 6, "member": 6, "hb": 12, "read": 4, "crash": 1, "armcrash": 1, "restart": 6, "snapnow": 4, "gate": 0, "release": 0}}}
 
 
 def fam_member5(seed, i, tier):
